@@ -215,6 +215,24 @@ def compensating_faults(name, spec):
                                 data = {"hi_data": sym_list(f"cmp{ck}.hi", nbad if only == "hi_data" else nbok), "lo_data": sym_list(f"cmp{ck}.lo", nbad if only == "lo_data" else nbok)}
                                 smp["modifiers"].append({"name": "cmp_histosys", "type": t, "data": data})
                             out.append(("compensating-length-errors-in-two-channels", f"{t}.{only}:{sn}@{c['name']}{d1 - nb1:+d},{c2['name']}{d2 - nb2:+d}", s3, None))
+    # the same for the sample's own yields: one bin too many in one channel, one too few in another
+    for ci, c in enumerate(chs):
+        for cj, c2 in enumerate(chs):
+            if ci >= cj:
+                continue
+            common = [s["name"] for s in c["samples"] if s["name"] in [x["name"] for x in c2["samples"]]]
+            for sn in common:
+                nb1, nb2 = len(c["samples"][0]["data"]), len(c2["samples"][0]["data"])
+                if nb2 < 2 and nb1 < 2:
+                    continue
+                d1, d2 = (nb1 + 1, nb2 - 1) if nb2 >= 2 else (nb1 - 1, nb2 + 1)
+                s2 = copy.deepcopy(spec)
+                for ck, nbad in ((ci, d1), (cj, d2)):
+                    smp = next(s for s in s2["channels"][ck]["samples"] if s["name"] == sn)
+                    smp["data"] = sym_list(f"cmpn{ck}.n", nbad)
+                    # keep only modifiers without per-bin data so that the yields are the only length fault
+                    smp["modifiers"] = [m for m in smp["modifiers"] if m["type"] in ("normfactor", "normsys", "lumi")]
+                out.append(("compensating-length-errors-in-two-channels", f"yields:{sn}@{c['name']}{d1 - nb1:+d},{c2['name']}{d2 - nb2:+d}", s2, None))
     return out
 
 
